@@ -40,7 +40,8 @@ ASSUMPTIONS = [
 ]
 SHARDS = {'quick': 4, 'thorough': 16}
 TIMEOUT = {'quick': 900, 'thorough': 3600}
-FLOORS = {'faults_fired': 300, 'request_kinds': 6, 'fast_path_submissions': 20, 'multi_bunch_submissions': 20, 'later_updates': 20, 'job_id_agreements_checked': 300}
+FLOORS = {'faults_fired': 300, 'request_kinds': 6, 'fast_path_submissions': 20, 'multi_bunch_submissions': 20, 'later_updates': 20, 'job_id_agreements_checked': 300, 'fault_free_runs_judged': 100,
+          'consecutive_fast_path_updates_from_one_batch_object': 4}
 
 
 def kind_of(method, path):
@@ -271,6 +272,24 @@ def run(ctx):
             ctx.count('submissions_refused_without_faults')
             ctx.seen('fault_free_refusals', str(err0)[:90])
             continue
+        # the fault-free run itself is judged against the submission the client built (not only used as the twin)
+        n_sub_jobs = sum(len(u['jobs']) for u in sub)
+        n_sub_groups = sum(len(u['groups']) for u in sub)
+        desc0 = {'submission': sub, 'requests': kinds, 'plan': {}, 'fired': []}
+        ctx.count('fault_free_runs_judged')
+        if sum0['n_jobs_own'] != n_sub_jobs or any(len(v) != 1 for v in sum0['uid_to_job'].values()) or len(sum0['uid_to_job']) != n_sub_jobs:
+            ctx.violation('fault-free/jobs-lost-or-duplicated', f'the client created {n_sub_jobs} jobs in {len(sub)} submit() calls, the server holds {sum0["n_jobs_own"]} rows for {len(sum0["uid_to_job"])} of them', desc0)
+        if sum0['n_groups'] != n_sub_groups + sum0['n_batches']:
+            ctx.violation('fault-free/job-groups-lost-or-duplicated', f'the client created {n_sub_groups} job groups, the server holds {sum0["n_groups"] - sum0["n_batches"]} besides the root', desc0)
+        if sum(sum0['batch_n_jobs'].values()) != n_sub_jobs:
+            ctx.violation('fault-free/batch-n_jobs-differs', f'batches.n_jobs sums to {sum(sum0["batch_n_jobs"].values())} for {n_sub_jobs} submitted jobs', desc0)
+        for uid, jid in ids0.items():
+            rows = sum0['uid_to_job'].get(uid, [])
+            ctx.count('job_id_agreements_checked')
+            if len(rows) == 1 and rows[0][1] != jid:
+                ctx.violation('client-job-id-differs-from-server', f'job {uid}: client computed id {jid}, server row has {rows[0][1]} (no faults)', desc0)
+        if len(sub) >= 3 and kinds.count('update-fast') >= 2:
+            ctx.count('consecutive_fast_path_updates_from_one_batch_object')
         nreq = len(kinds)
         plans = [{k: a} for k in range(nreq) for a in ('lost', 'drop', 'dup', 'interleave')]
         m = ctx.pick(6, 25)
